@@ -110,7 +110,9 @@ def produce_value_contract(force):
             now = st.ghost["now"]
             r = G(I.term(args[0]), now)
             I.U.well_typed(r)
-            return [(st, Sym(r))]
+            # user code: the generator may also fail
+            q = st.fork()
+            return [(st, Sym(r)), (q, Raise("$User", origin="generator"))]
         I.contracts["_produce_value"] = produce
 
         def time_fn(I, st, fv, args, kwargs, ctx):
@@ -140,12 +142,14 @@ def produce_value_contract(force):
 
     def post(I, info, st, oc):
         U = I.U
-        if isinstance(oc, Raise):
-            return [("does-not-raise", z3.BoolVal(False))]
         h = st.heap[info["gen"].oid].fields
         gt = I.term(info["gen"])
         last, tm = I.term(h["_Dynamic_last"]), I.term(h["_Dynamic_time"])
         now = info["now"]
+        if isinstance(oc, Raise):
+            # a failing generator must not leave a cache that claims a value for the new time
+            return [("only the generator's own exception escapes", z3.BoolVal(oc.cls == "$User")),
+                    ("a failing generator leaves DynCache intact (the next read at that time produces the value)", dyncache(I, last, tm, gt))]
         out = [("value == G(gen, now): same time, same value, whatever was read before", I.term(oc) == G(gt, now)),
                ("preserves DynCache", dyncache(I, last, tm, gt)),
                ("time function read exactly once", z3.BoolVal(st.ghost.get("time_reads", 0) == 1))]
